@@ -213,6 +213,7 @@ type Script struct {
 	fresh    int
 	typeTags map[string]int
 	tagNames []string
+	tagTypes []types.Type
 }
 
 func newScript() *Script {
@@ -284,6 +285,7 @@ func (s *Script) tagOf(t types.Type) int {
 	v := len(s.typeTags) + 1
 	s.typeTags[k] = v
 	s.tagNames = append(s.tagNames, k)
+	s.tagTypes = append(s.tagTypes, t)
 	return v
 }
 
